@@ -30,8 +30,7 @@ Theorem C01_sup_fit_rank_related :
       let vals := zero :: top :: weight_vals n w in
       let r := rk ltb vals in
       let a := sup_fit ltb zero top labels w in
-      let b := sup_fit Z.ltb (r zero) (r top) labels
-                       (fun p q => r (if andb (Nat.ltb p n) (Nat.ltb q n) then w p q else zero)) in
+      let b := sup_fit Z.ltb (r zero) (r top) labels (fun p q => r (w p q)) in
       Forall2 (fun x z => In x vals /\ z = r x) (n_cost a) (n_cost b) /\
       n_pred a = n_pred b /\ n_label a = n_label b /\ n_plabel a = n_plabel b /\
       n_status a = n_status b /\ n_relevant a = n_relevant b /\ n_order a = n_order b.
